@@ -8,4 +8,3 @@ use sax::*;
 use fax::*;
 // trusted: 64-bit target
 global size_of usize == 8;
-broadcast use {fax::g, sax::ix_ok_usize, sax::ix_val_usize, sax::ix_upd_usize, vstd::std_specs::hash::group_hash_axioms, kax::char_key_model};
